@@ -2,12 +2,14 @@ package main
 
 import (
 	"context"
+	"dsim/simtime"
 	"fmt"
 	"io"
 	"os"
 	"path/filepath"
 	"strings"
 	"sync"
+	"time"
 
 	"dsim"
 	"dsim/runner"
@@ -19,6 +21,18 @@ import (
 // Shared pieces of the whole-server simulations (package main scenarios).
 
 func init() {
+	afterUnaryReturn = func() {
+		if s := dsim.Active(); s != nil && !s.Stopping() {
+			if s.Tape().Bool(0.3) {
+				// descheduled for long: the other requests go on until they block themselves
+				simtime.Sleep(50 * time.Microsecond)
+				return
+			}
+			for i := 0; i < 3; i++ {
+				s.Yield("grpc-serialise")
+			}
+		}
+	}
 	klog.LogToStderr(false)
 	klog.SetOutput(io.Discard)
 }
